@@ -9,12 +9,28 @@
    transcription of Matrix::partition without overflow checks, equals `partition` on every
    matrix that can exist, so the partition theorems hold in both build profiles; `data_layout`
    of a stack of views and what `&S` / `&mut S` answer instead).
+   Second extension wave: the three access forms are SEPARATE transcriptions
+   (Model/MatrixAccess.v: `try_get_mut` = try_get_reference_mut, `get_unchecked` /
+   `get_unchecked_mut` = get_reference_unchecked(_mut), each from its own impl block of
+   Matrix / MatrixPart / MatrixRange / MatrixReverse / MatrixMap / MatrixRefTensor); Proofs/C12Access.v
+   proves that they agree on every present index (and the two checked forms on every index), that
+   outside the size the unchecked forms are NOT the checked ones (panic / undefined / a different
+   cell), and — with the any-source iterators of Model/IterG.v, Proofs/C09GenP.v, C09ViewsP.v —
+   that the only safe callers of the unchecked getters (the matrix iterators) pass present
+   indexes only.  The correspondence prints each form on its own (Run/RunC12.v).
+   Views over a source that is mutated THROUGH the view (`source_ref_mut()`; round-4 seed C12-v1):
+   `rev_stack` (Model/MatrixAccess.v) is the MatrixReverse stack re-evaluated over the matrix as it
+   is now; C12_reversal_views_survive_source_mutation: after every step of every history of Matrix
+   operations it is a stack over a valid matrix; op (12 7 ..) keeps one view object across such
+   histories and observes it through all four access forms after every step.
    Mapped views: MatrixMap is crate-private (its only user is Display for RecordMatrix); no public
    API hands out a lazily mapped matrix view, MatrixView::map / map_with_index build a new Matrix.
    The model node VMap (index-transparent) is covered by C12_contract. *)
 From Coq Require Import List ZArith NArith Bool Arith Sorted.
 From EasyML Require Import Base.Sx Model.Shape Model.MatrixViews Proofs.C12P Proofs.C12Partition Proofs.C12Tensor Proofs.C12Release.
-From EasyML Require Model.Views Proofs.C02P Proofs.C02Inj.
+From EasyML Require Import Model.MatrixAccess Model.ShapeIter Model.MatrixIter Model.Transform Model.IterG
+  Proofs.C12Access Proofs.C09GenP Proofs.C09ViewsP.
+From EasyML Require Model.Views Proofs.C02P Proofs.C02Inj Model.Matrix Proofs.C11Spec.
 Import ListNotations.
 Open Scope N_scope.
 
@@ -235,6 +251,149 @@ Example C12_nonvacuous_session3 :
   data_layout (range_from (VMatrix 3 4) (mkIR 0 2) (mkIR 1 2)) = LRowMajor.
 Proof. repeat split; try reflexivity; try (vm_compute; discriminate). Qed.
 
+(* ---- second extension wave: shared, mutable and unchecked access alike ---- *)
+(* the mutable checked getter (its own transcription) computes what the shared one does, on EVERY
+   index, present or not, for every stack that has a mutable face (no mapped layer) *)
+Theorem C12_mutable_getter_is_shared_getter : forall v, has_mut v = true -> forall row column,
+  try_get_mut v row column = try_get v row column.
+Proof. exact try_get_mut_eq. Qed.
+
+(* both unchecked getters (their own transcriptions: `unwrap`, unguarded reverse_indexes,
+   get_unchecked on the slices) resolve every PRESENT index to the designated cell *)
+Theorem C12_unchecked_getters_on_present : forall v row column p, try_get v row column = Cell p ->
+  get_unchecked v row column = UCell p /\
+  (has_mut v = true -> get_unchecked_mut v row column = UCell p).
+Proof.
+  exact (fun v row column p H => conj (get_unchecked_present v row column p H)
+                                       (fun Hm => get_unchecked_mut_present v Hm row column p H)).
+Qed.
+
+(* all four forms for every well-formed view: inside the size one cell of the root's storage,
+   outside absent for both checked forms *)
+Theorem C12_access_forms_agree : forall len v, wf len v -> has_mut v = true -> forall row column,
+  if inside v row column
+  then exists p, p < len /\
+         try_get v row column = Cell p /\ try_get_mut v row column = Cell p /\
+         get_unchecked v row column = UCell p /\ get_unchecked_mut v row column = UCell p
+  else try_get v row column = Absent /\ try_get_mut v row column = Absent.
+Proof. exact access_forms_agree. Qed.
+
+(* ... in particular for every stack over a matrix or a partition part *)
+Theorem C12_access_forms_agree_stack : forall rows cols v, 1 <= rows -> stack rows cols v ->
+  has_mut v = true -> forall row column,
+  if inside v row column
+  then exists p, p < rows * cols /\
+         try_get v row column = Cell p /\ try_get_mut v row column = Cell p /\
+         get_unchecked v row column = UCell p /\ get_unchecked_mut v row column = UCell p
+  else try_get v row column = Absent /\ try_get_mut v row column = Absent.
+Proof. exact (fun rows cols v H1 Hs => access_forms_agree (rows * cols) v (stack_wf rows cols v H1 Hs)). Qed.
+
+(* views with a mapped layer (MatrixRef only): the two shared forms *)
+Theorem C12_shared_forms_agree : forall len v, wf len v -> forall row column,
+  if inside v row column
+  then exists p, p < len /\ try_get v row column = Cell p /\ get_unchecked v row column = UCell p
+  else try_get v row column = Absent.
+Proof. exact access_forms_agree_shared. Qed.
+
+(* writes through the mutable checked form (MatrixView::set, try_get_reference_mut,
+   get_reference_mut) and through the unchecked mutable form on a present index are the write of
+   C12_write_through *)
+Theorem C12_writes_through_every_form : forall (T : Type) (data : list T) v row column x,
+  has_mut v = true ->
+  write_mut data v row column x = write data v row column x /\
+  forall p, try_get v row column = Cell p ->
+    write_unchecked data v row column x = write data v row column x.
+Proof.
+  exact (fun T data v row column x Hm =>
+           conj (write_mut_eq data v row column x Hm)
+                (fun p E => write_unchecked_present data v row column x p Hm E)).
+Qed.
+
+(* outside the size the unchecked forms are NOT the checked ones: a defined read of a DIFFERENT
+   cell (Matrix), a panic in `unwrap` (MatrixRange), an out-of-bounds get_unchecked (MatrixPart),
+   an arithmetic underflow (MatrixReverse over an empty source) — so the safety of the crate
+   rests on who calls them: *)
+Theorem C12_unchecked_forms_need_present_indexes :
+  try_get (VMatrix 2 3) 0 4 = Absent /\ get_unchecked (VMatrix 2 3) 0 4 = UCell 4 /\
+  try_get (VMatrix 2 3) 1 1 = Cell 4 /\
+  get_unchecked (range_from (VMatrix 2 3) (mkIR 0 1) (mkIR 0 3)) 1 0 = UPanic /\
+  get_unchecked (VPart (mkPart [(0, 2); (3, 2)] 2 2)) 0 2 = UUndefined /\
+  get_unchecked_mut (VReverse true false (range_from (VMatrix 2 3) (mkIR 5 1) (mkIR 0 3))) 0 0 = UPanic /\
+  try_get (VReverse true false (range_from (VMatrix 2 3) (mkIR 5 1) (mkIR 0 3))) 0 0 = Absent.
+Proof. exact unchecked_outside_examples. Qed.
+
+(* the only safe callers of a matrix view's unchecked getters are the matrix iterators
+   (src/matrices/iterators.rs; C10's iterator-place theorems): over ANY well-formed view as the
+   source (Model/IterG.v `mview_source`, any root data), every (row, column) the row-major /
+   column-major iterators pass — at every prefix, exhausted and empty views included — is present:
+   both unchecked getters resolve it to the cell the checked getter designates, inside the root *)
+Theorem C12_major_iterators_reach_unchecked_getters_with_present_indexes :
+  forall (T : Type) len v, wf len v -> forall rm (data : list T) k,
+  Forall (fun p => exists cell, cell < len /\ try_get v (fst p) (snd p) = Cell cell /\
+                     get_unchecked v (fst p) (snd p) = UCell cell /\
+                     (has_mut v = true -> get_unchecked_mut v (fst p) (snd p) = UCell cell))
+         (map fst (somes (map fst (fst (drive (gmi_next (mview_source v)) gmi_len k
+                                              (gmi_from (mview_source v) rm data)))))).
+Proof. exact (fun T len v Hw rm data k => mview_major_iter_reaches_present v len Hw rm data k). Qed.
+
+(* ... and the single-column / single-row / diagonal iterators, whose constructors assert that the
+   column / row exists *)
+Theorem C12_line_iterators_reach_unchecked_getters_with_present_indexes :
+  forall (T : Type) len v, wf len v -> forall kind fixed (data : list T) k c,
+  (kind = LColumn /\ lc_column (view_rows v) (view_cols v) fixed = Ok c) \/
+  (kind = LRow /\ lc_row (view_rows v) (view_cols v) fixed = Ok c) \/
+  (kind = LDiagonal /\ c = lc_diagonal (view_rows v) (view_cols v)) ->
+  Forall (fun p => exists cell, cell < len /\ try_get v (fst p) (snd p) = Cell cell /\
+                     get_unchecked v (fst p) (snd p) = UCell cell /\
+                     (has_mut v = true -> get_unchecked_mut v (fst p) (snd p) = UCell cell))
+         (map fst (somes (map fst (fst (drive (gli_next (mview_source v)) gli_len k (mkGI c data)))))).
+Proof. exact (fun T len v Hw kind fixed data k c => mview_line_iter_reaches_present v len Hw kind fixed data k c). Qed.
+
+(* two different indexes of a stack over a matrix or a partition part never resolve to the same
+   cell (ranges shift, reversals mirror, parts are disjoint slices) *)
+Theorem C12_stack_injective : forall rows cols v, 1 <= rows -> stack rows cols v ->
+  forall r c r' c' cell, try_get v r c = Cell cell -> try_get v r' c' = Cell cell -> r = r' /\ c = c'.
+Proof. exact stack_injective. Qed.
+
+(* views over a source that is MUTATED through the view (round-4 seed C12-v1: a MatrixReverse that
+   cached its source's size at construction).  MatrixReverse is the one public matrix adaptor that
+   hands out `source_ref_mut()`; it stores its two flags and nothing else, so after ANY history of
+   Matrix operations (insertions, removals, transposition, writes; valid or panicking) applied to
+   the source, the same view object is `rev_stack m revs` over the matrix as it is now: a stack
+   over a valid matrix reporting that matrix' size — hence C12_contract, C12_reverse,
+   C12_access_forms_agree_stack and C12_stack_injective hold for it after every step *)
+Theorem C12_reversal_views_survive_source_mutation : forall (T : Type) (m0 : Matrix.matrix T)
+  (ops : list (Matrix.op T)) revs, C11Spec.Inv m0 ->
+  Forall (fun r : Matrix.matrix T * bool =>
+            let m := fst r in let v := rev_stack m revs in
+            1 <= Matrix.m_rows m /\ N.of_nat (length (Matrix.m_data m)) = Matrix.m_rows m * Matrix.m_cols m /\
+            stack (Matrix.m_rows m) (Matrix.m_cols m) v /\ has_mut v = true /\
+            view_rows v = Matrix.m_rows m /\ view_cols v = Matrix.m_cols m)
+         (Matrix.impl_trace m0 ops).
+Proof. exact @reversal_views_survive_source_mutation. Qed.
+
+Example C12_nonvacuous_source_mutation :
+  let m0 := Matrix.mkM [1; 2; 3; 4; 5; 6]%Z 3 2 in
+  C11Spec.Inv m0 /\
+  (* reversed rows over a 3 x 2 matrix: (0, 0) is the last row; after insert_row(3, 9) on the
+     source the same view has 4 rows and (0, 0) is the NEW last row *)
+  try_get (rev_stack m0 [(true, false)]) 0 0 = Cell 4 /\
+  (let m1 := fst (Matrix.impl_step m0 (Matrix.OInsertRow 3 9%Z)) in
+   view_rows (rev_stack m1 [(true, false)]) = 4 /\
+   read (Matrix.m_data m1) (try_get (rev_stack m1 [(true, false)]) 0 0) = Ok (Some 9%Z) /\
+   read_unchecked (Matrix.m_data m1) (get_unchecked (rev_stack m1 [(true, false)]) 3 1) = Ok (Some 2%Z)).
+Proof. vm_compute. repeat split; reflexivity || (intros H; discriminate H). Qed.
+
+Example C12_nonvacuous_access_forms :
+  let v := VReverse true false (range_from (VMatrix 3 4) (mkIR 1 5) (mkIR 0 usize_max)) in
+  stack 3 4 v /\ has_mut v = true /\ inside v 1 2 = true /\
+  try_get v 1 2 = Cell 6 /\ try_get_mut v 1 2 = Cell 6 /\
+  get_unchecked v 1 2 = UCell 6 /\ get_unchecked_mut v 1 2 = UCell 6 /\
+  try_get v 2 0 = Absent /\ get_unchecked v 2 0 = UPanic.
+Proof.
+  cbv zeta. split; [apply st_reverse, st_range, st_matrix|]. vm_compute. repeat split; reflexivity.
+Qed.
+
 Print Assumptions C12_contract.
 Print Assumptions C12_contract_over_tensor_views.
 Print Assumptions C12_present_iff_inside.
@@ -254,3 +413,14 @@ Print Assumptions C12_partition_profiles_agree.
 Print Assumptions C12_partition_release_accepts_rejects.
 Print Assumptions C12_data_layout.
 Print Assumptions C12_data_layout_through_reference.
+Print Assumptions C12_mutable_getter_is_shared_getter.
+Print Assumptions C12_unchecked_getters_on_present.
+Print Assumptions C12_access_forms_agree.
+Print Assumptions C12_access_forms_agree_stack.
+Print Assumptions C12_shared_forms_agree.
+Print Assumptions C12_writes_through_every_form.
+Print Assumptions C12_unchecked_forms_need_present_indexes.
+Print Assumptions C12_major_iterators_reach_unchecked_getters_with_present_indexes.
+Print Assumptions C12_line_iterators_reach_unchecked_getters_with_present_indexes.
+Print Assumptions C12_stack_injective.
+Print Assumptions C12_reversal_views_survive_source_mutation.
